@@ -206,7 +206,7 @@ BIN_OPS = ["*", "/", "//", "%", "+", "-", "<<", ">>", "in", "<", ">", "<=", ">="
 UN_OPS = ["+", "-", "not ", "~"]
 FMT_STRINGS = ["'{0._secret}'", "'{0.pub._secret}'", "'{0.__class__}'", "'{0.__class__.__mro__}'", "'{0[0]._secret}'",
                "'{k._secret}'", "'{0.__dict__}'", "'{0._Sentinel__mangled}'", "'{0.name}'", "'{0}'", "'{0.child.name}'",
-               "'{0:{1._secret}}'", "'{0.__init__.__globals__}'", "'{0!r}'", "\"{0._secret}\""]
+               "'{0:{1._secret}}'", "'{0:>{1._secret}}'", "'{1:{0.__class__}}'", "'{0:{2.pub._secret}}'", "'{k:{k._secret}}'", "'{0.__init__.__globals__}'", "'{0!r}'", "\"{0._secret}\""]
 OTHER_BUILTINS = [n for n in dir(builtins) if not n.startswith("_") and n not in WHITELIST]
 TEST_SUITE = ["foo[(bar + 10) * 2]", "foo.bar", "(foo.bar)", "foo[1]", "a.b[c](d, e)", "[1, 2, 3]", "(1, 2)", "1 + 2 * 3",
               "-a", "not a", "a if b", "max(1, 2)", "len(lst)", "str(n) + 'x'", "from.name == to.name", "from['k'] == to[0]",
@@ -238,6 +238,15 @@ def expr(r, names, depth=0):
         # expression is evaluated in, not on the program text)
         recv = r.choice(names) if r.random() < 0.7 else f"{r.choice(names)}[{r.choice(['0', '1', chr(39) + 'k' + chr(39)])}]"
         return f"{recv}.{r.choice(['format', 'format', 'format_map'])}({', '.join(r.choice(names) for _ in range(r.randint(1, 2)))})"
+    if x < 0.06:
+        # a format string literal formatted with one to three arguments (fields nested in a format spec need the later ones)
+        args = ", ".join(r.choice(names + ["'x'", "3"]) for _ in range(r.randint(1, 3)))
+        how = r.random()
+        if how < 0.6:
+            return f"{r.choice(FMT_STRINGS)}.format({args})"
+        if how < 0.8:
+            return f"str.format({r.choice(FMT_STRINGS)}, {args})"
+        return f"{r.choice(FMT_STRINGS)}.format_map({r.choice(names)})"
     if depth >= 4 or x < 0.22:
         return atom(r, names)
     if x < 0.50:      # member chain
